@@ -10,104 +10,148 @@ mod wcc;
 use jjv::coq;
 use wcc::*;
 
+struct CaseOut {
+    term: String,
+    nontrivial: bool,
+    shape: String,
+    panicked: bool,
+    note: Option<String>,
+}
+
+fn run_case(i: usize, mut rng: jjv::Rng) -> CaseOut {
+    let odd = *rng.pick(&[0u64, 0, 0, 5, 15, 40]);
+    let t1 = gen_tree(&mut rng, odd);
+    let t2 = mutate_tree(&mut rng, &t1, odd);
+    let mut ws = Ws::new();
+    let store = ws.store();
+    let t1m = write_tree(&store, &t1);
+    let t2m = write_tree(&store, &t2);
+
+    // sparse patterns first (on the empty tree: no disk effect)
+    let sparse: Vec<P> = if rng.chance(1, 4) { gen_sparse(&mut rng, &t1, &t2) } else { vec![vec![]] };
+    let is_sparse = sparse != vec![Vec::<String>::new()];
+    if is_sparse {
+        let r = outcome(ws.set_sparse(&sparse));
+        assert!(matches!(r, Outcome::Ok(_)), "set_sparse on empty tree: {r:?}");
+    }
+    // bring the working copy to t1: a real checkout, or (always when that fails because of
+    // reserved / invalid names) only the recorded state via reset()
+    let want_reset = rng.chance(1, 5);
+    let mut via_reset = want_reset;
+    if !want_reset {
+        match outcome(ws.check_out(&t1m)) {
+            Outcome::Ok(_) => {}
+            _ => via_reset = true,
+        }
+    }
+    if via_reset {
+        assert!(ws.reset(&t1m));
+        // materialize part of t1 by hand so that removals have something to remove
+        for (p, v) in &t1 {
+            if matches_sparse(&sparse, p) && rng.chance(2, 3) {
+                let e = match v {
+                    TVal::File(c, x) => Edit::WriteFile(p.clone(), c.clone(), *x),
+                    TVal::Sym(t) => Edit::Symlink(p.clone(), t.clone()),
+                };
+                apply_edit(&ws.root, &e);
+            }
+        }
+    }
+    let intensity = *rng.pick(&[0u64, 2, 4, 6]);
+    let edits = gen_edits(&mut rng, &t1, &t2, intensity);
+    for e in &edits {
+        apply_edit(&ws.root, e);
+    }
+
+    let disk0 = list_disk(&ws.root);
+    let states0 = ws.file_states();
+    let outside0 = ws.outside_listing();
+    let matcher = prefix_matcher(&sparse);
+    let diff = real_diff(&ws.wc_tree(), &t2m, &matcher).expect("plain diff");
+    let res = outcome(ws.check_out(&t2m));
+    let disk1 = list_disk(&ws.root);
+    let states1 = ws.file_states();
+    let outside_ok = ws.outside_listing() == outside0;
+
+    let term = coq::app(
+        "mk_case",
+        &[
+            coq_disk(&disk0),
+            coq_states(&states0),
+            coq_tree(&t1),
+            coq_tree(&t2),
+            coq_paths(&sparse),
+            coq_diff(&diff),
+            coq_outcome(&res),
+            coq_disk(&disk1),
+            coq_states(&states1),
+            coq::b(outside_ok),
+        ],
+    );
+    let skipped = matches!(&res, Outcome::Ok(s) if s.skipped_files > 0);
+    let link_obstacle = disk0.values().any(|n| matches!(n, Node::Sym(t) if t.contains("outside")));
+    let shape = format!(
+        "{}{}{}{}{}",
+        match &res {
+            Outcome::Ok(_) => "ok",
+            Outcome::Reserved => "reserved",
+            Outcome::InvalidPath => "invalid",
+            Outcome::Other(_) => "other",
+            Outcome::Panic => "panic",
+        },
+        if skipped { " skipped" } else { "" },
+        if link_obstacle { " outlink" } else { "" },
+        if via_reset { " reset" } else { "" },
+        if is_sparse { " sparse" } else { "" },
+    );
+    CaseOut {
+        term,
+        nontrivial: !diff.is_empty() && !edits.is_empty(),
+        shape,
+        panicked: res == Outcome::Panic,
+        note: if let Outcome::Other(m) = &res { Some(format!("case {i}: {m}")) } else { None },
+    }
+}
+
 fn main() {
     jjv::run("C25", "C25", |ctx| {
         // TestEnvironment creates its directories under TMPDIR: keep them in our scratch
         unsafe { std::env::set_var("TMPDIR", &ctx.scratch) };
-        for i in ctx.indices() {
-            let mut rng = ctx.rng(i);
-            let odd = *rng.pick(&[0u64, 0, 0, 5, 15, 40]);
-            let t1 = gen_tree(&mut rng, odd);
-            let t2 = mutate_tree(&mut rng, &t1, odd);
-            let mut ws = Ws::new();
-            let store = ws.store();
-            let t1m = write_tree(&store, &t1);
-            let t2m = write_tree(&store, &t2);
-
-            // sparse patterns first (on the empty tree: no disk effect)
-            let sparse: Vec<P> = if rng.chance(1, 4) { gen_sparse(&mut rng, &t1, &t2) } else { vec![vec![]] };
-            if sparse != vec![Vec::<String>::new()] {
-                let r = outcome(ws.set_sparse(&sparse));
-                assert!(matches!(r, Outcome::Ok(_)), "set_sparse on empty tree: {r:?}");
-            }
-            // bring the working copy to t1: a real checkout, or (always when that fails
-            // because of reserved / invalid names) only the recorded state via reset()
-            let want_reset = rng.chance(1, 5);
-            let mut via_reset = want_reset;
-            if !want_reset {
-                match outcome(ws.check_out(&t1m)) {
-                    Outcome::Ok(_) => {}
-                    _ => via_reset = true,
-                }
-            }
-            if via_reset {
-                assert!(ws.reset(&t1m));
-                // materialize part of t1 by hand so that removals have something to remove
-                for (p, v) in &t1 {
-                    if matches_sparse(&sparse, p) && rng.chance(2, 3) {
-                        let e = match v {
-                            TVal::File(c, x) => Edit::WriteFile(p.clone(), c.clone(), *x),
-                            TVal::Sym(t) => Edit::Symlink(p.clone(), t.clone()),
-                        };
-                        apply_edit(&ws.root, &e);
-                    }
-                }
-            }
-            let intensity = *rng.pick(&[0u64, 2, 4, 6]);
-            let edits = gen_edits(&mut rng, &t1, &t2, intensity);
-            for e in &edits {
-                apply_edit(&ws.root, e);
-            }
-
-            let disk0 = list_disk(&ws.root);
-            let states0 = ws.file_states();
-            let outside0 = ws.outside_listing();
-            let matcher = prefix_matcher(&sparse);
-            let diff = real_diff(&ws.wc_tree(), &t2m, &matcher).expect("plain diff");
-            let res = outcome(ws.check_out(&t2m));
-            if res == Outcome::Panic {
+        let outs = par_cases(ctx, run_case);
+        for (i, o) in outs {
+            if o.panicked {
                 ctx.panicked();
             }
-            let disk1 = list_disk(&ws.root);
-            let states1 = ws.file_states();
-            let outside_ok = ws.outside_listing() == outside0;
-
-            let term = coq::app(
-                "mk_case",
-                &[
-                    coq_disk(&disk0),
-                    coq_states(&states0),
-                    coq_tree(&t1),
-                    coq_tree(&t2),
-                    coq_paths(&sparse),
-                    coq_diff(&diff),
-                    coq_outcome(&res),
-                    coq_disk(&disk1),
-                    coq_states(&states1),
-                    coq::b(outside_ok),
-                ],
-            );
-            let skipped = matches!(&res, Outcome::Ok(s) if s.skipped_files > 0);
-            let link_obstacle = disk0.values().any(|n| matches!(n, Node::Sym(t) if t.contains("outside")));
-            let shape = format!(
-                "{}{}{}{}{}",
-                match &res {
-                    Outcome::Ok(_) => "ok",
-                    Outcome::Reserved => "reserved",
-                    Outcome::InvalidPath => "invalid",
-                    Outcome::Other(_) => "other",
-                    Outcome::Panic => "panic",
-                },
-                if skipped { " skipped" } else { "" },
-                if link_obstacle { " outlink" } else { "" },
-                if via_reset { " reset" } else { "" },
-                if sparse != vec![Vec::<String>::new()] { " sparse" } else { "" },
-            );
-            if let Outcome::Other(m) = &res {
-                ctx.note(format!("case {i}: {m}"));
+            if let Some(n) = o.note {
+                ctx.note(n);
             }
-            let nontrivial = !diff.is_empty() && !edits.is_empty();
-            ctx.emit(i, term, nontrivial, &shape);
+            ctx.emit(i, o.term, o.nontrivial, &o.shape);
         }
     });
+}
+
+/// Runs the cases on a few worker threads (each case is a function of its index and its
+/// own generator state only) and returns the results in index order.
+fn par_cases<T: Send>(ctx: &jjv::Ctx, f: impl Fn(usize, jjv::Rng) -> T + Sync) -> Vec<(usize, T)> {
+    let indices = ctx.indices();
+    let workers = 8usize.min(indices.len().max(1));
+    let results = std::sync::Mutex::new(Vec::new());
+    std::thread::scope(|scope| {
+        for k in 0..workers {
+            let indices = &indices;
+            let results = &results;
+            let f = &f;
+            scope.spawn(move || {
+                for (n, &i) in indices.iter().enumerate() {
+                    if n % workers == k {
+                        let out = f(i, ctx.rng(i));
+                        results.lock().unwrap().push((i, out));
+                    }
+                }
+            });
+        }
+    });
+    let mut v = results.into_inner().unwrap();
+    v.sort_by_key(|(i, _)| *i);
+    v
 }
